@@ -247,9 +247,6 @@ var simpleTypeNames = map[string]bool{"INT64": true, "STRING": true, "DATE": tru
 // its plain identifiers is renamed to a non-reserved word the grammar also uses as a pseudo keyword.
 func identSubstitution(r *explore.Run) {
 	k := 2
-	if r.Tier == "thorough" {
-		k = 3
-	}
 	r.Explore(explore.Options{Space: "S4i/identifier-renamings", MaxDev: k, SplitLen: 3,
 		Bound: fmt.Sprintf("every sentence of G with <=%d deviations x every plain identifier x each of %d keyword-like non-reserved names", k, len(kwLikeIdents))},
 		func(c *explore.Ctx) {
